@@ -461,6 +461,60 @@ def api_of(path):
     return sorted(out)
 
 
+CALLBACK_BASE_NAMES = ("BaseProtocol", "Protocol", "BufferedProtocol", "DatagramProtocol", "SubprocessProtocol")
+SCHEDULERS = ("call_later", "call_at", "call_soon", "call_soon_threadsafe", "add_done_callback", "create_task",
+              "ensure_future", "run_in_executor", "to_thread", "add_reader", "add_writer", "add_signal_handler")
+
+
+def entry_points(path, live):
+    """where the event loop enters the code of a module: the transport / protocol callbacks its classes define
+    (whatever asyncio would call on an instance, however the method got there), and the callables its code hands to the
+    loop for a later call.  The models' event alphabets are exactly these."""
+    import asyncio
+    bases = [getattr(asyncio, n) for n in CALLBACK_BASE_NAMES]
+    names = set()
+    for b in bases:
+        names |= {n for n in vars(b) if not n.startswith("_")}
+    out = []
+    with open(path, encoding="utf-8") as fh:
+        tree = ast.parse(fh.read(), path)
+    seen = set()
+    if live is not None:
+        for cname, cls in sorted(vars(live).items()):
+            if isinstance(cls, type) and cls.__module__ == live.__name__:
+                for n in sorted(names):
+                    impl = getattr(cls, n, None)
+                    if impl is not None and not any(getattr(b, n, None) is impl for b in bases):
+                        seen.add("callback:%s.%s" % (cname, n))
+    for node in tree.body:
+        if isinstance(node, ast.ClassDef):
+            for sub in node.body:
+                if isinstance(sub, (ast.FunctionDef, ast.AsyncFunctionDef)) and sub.name in names:
+                    seen.add("callback:%s.%s" % (node.name, sub.name))
+    out += sorted(seen)
+
+    def walk(body, prefix):
+        for node in body:
+            if isinstance(node, ast.ClassDef):
+                walk(node.body, prefix + node.name + ".")
+            elif isinstance(node, (ast.FunctionDef, ast.AsyncFunctionDef)):
+                for sub in ast.walk(node):
+                    if isinstance(sub, ast.Call):
+                        f = sub.func
+                        fname = f.attr if isinstance(f, ast.Attribute) else (f.id if isinstance(f, ast.Name) else None)
+                        if fname in SCHEDULERS:
+                            # (the callable that is handed over; delays and arguments are the models' business)
+                            k = 1 if fname in ("call_later", "call_at", "run_in_executor", "add_reader", "add_writer",
+                                               "add_signal_handler") else 0
+                            cb = ast.unparse(sub.args[k]) if len(sub.args) > k else "?"
+                            out.append("scheduled:%s%s:%s->%s" % (prefix, node.name, fname, cb))
+            elif isinstance(node, (ast.If, ast.Try)):
+                for fld in ("body", "orelse", "finalbody"):
+                    walk(getattr(node, fld, []) or [], prefix)
+    walk(tree.body, "")
+    return sorted(set(out))
+
+
 def constant_values(repo, live):
     """NAME=repr(value) of every upper-case name of constants.py"""
     out = []
@@ -507,6 +561,13 @@ def collect(repo):
             except SyntaxError as exc:
                 res[m] = ["unparsable:%s" % exc.msg]
                 res[m + "#api"] = ["unparsable"]
+    for m in ("protocol",):
+        p = os.path.join(src, m + ".py")
+        if os.path.exists(p):
+            try:
+                res[m + "#entry"] = entry_points(p, live_mods.get(m))
+            except SyntaxError:
+                res[m + "#entry"] = ["unparsable"]
     res["constants#values"] = constant_values(repo, live_mods.get("constants"))
     # instrument modules: only what is not a schema declaration or a pattern (module-level code, functions with state)
     inst = os.path.join(src, "instruments")
